@@ -67,6 +67,21 @@ theorem entry_points (bytes : List ℕ) :
   · rw [Formulas.ConvForms.decodeFixedForms_correct f hf, ha]
   · rw [Formulas.ConvForms.decodeFixedForms_correct f hf, hm]
 
+/-- **stream deserialisation of elements and of affine points** (`CanonicalDeserialize for Element | AffinePoint`, the lists
+regenerated from the `impl` blocks on every run) over the translated arkworks decoder: in (Compress::Yes, Validate::Yes)
+mode it accepts exactly when `decode32` accepts the first 32 bytes delivered, with the same element; a short stream is
+the io error, any rejection `InvalidData`; the other three modes are the `unimplemented!()` panic -/
+theorem stream_entry_points (compress validate : Bool) (inp : List ℕ) :
+    ∀ f ∈ (Gen.ConvForms.deserElementForms : List (String × ((List ℕ → Except DecErr Ext) → Bool → Bool → List ℕ → Except Gen.ConvForms.SerErr Ext))),
+      f.2 (Code.arkDecode sr) compress validate inp =
+        if compress && validate then
+          (if inp.length < 32 then .error .io else
+            match decode32 sr (inp.take 32) with | .ok el => .ok el | .error _ => .error .invalidData)
+        else .error .panic := by
+  intro f hf
+  rw [Formulas.ConvForms.deserElementForms_correct f hf, Code.arkDecode_eq]
+  split_ifs <;> first | rfl | (cases decode32 sr (List.take 32 inp) <;> rfl)
+
 /-- `TryFrom<&[u8]> for Encoding`: the 32 bytes themselves, or the length error -/
 theorem encoding_of_slice (bytes : List ℕ) :
     ∀ f ∈ (Gen.ConvForms.encodingOfSliceForms : List (String × (DecErr → DecErr → List ℕ → Except DecErr (List ℕ)))),
